@@ -119,6 +119,14 @@ ASSUME WideSelfTest ==
     /\ W(32768).m = <<0, 1>> /\ WellFormed(WPow2(63)) /\ WFitsBits(WNeg(WPow2(63)), 64) /\ ~WFitsBits(WPow2(63), 64)
     /\ \A i \in 1..NP : ChunksOK(Periods[i][1]) /\ ChunksOK(Periods[i][2]) /\ Gcd(Periods[i][1], Periods[i][2]) = 1
 
+ASSUME LimitsModel ==
+    \A r \in Reps :
+        LET lo == LimVal(r, "min") hi == LimVal(r, "max") IN
+        /\ lo.m.s = -1 /\ hi.m.s = 1 /\ LimVal(r, "zero").m = WZero                       \* min() < zero() < max()
+        /\ (r = "f64" => lo.m = WNeg(hi.m) /\ lo.x = hi.x /\ WIsOdd(hi.m) /\ WLt(hi.m, P53))  \* -max() == min(), 53-bit mantissa
+        /\ (IsInt(r) => lo.m = WNeg(WSucc(hi.m)) /\ RepFits(r, hi.m) /\ ~RepFits(r, WSucc(hi.m))
+                                                 /\ RepFits(r, lo.m) /\ ~RepFits(r, WPred(lo.m)))
+
 CW == IF st.kind \in {"ub", "bb", "mb"} THEN BigSeq[st.c] ELSE W(st.c)
 
 CE == IF st.kind = "uf" THEN st.c2 ELSE 0      \* binary exponent of the count (fractional floating-point sources)
